@@ -4242,7 +4242,7 @@ def parse(src: str) -> Program:
     i = 0
     while i < len(lines):
         raw = lines[i]
-        text = raw.strip()
+        text = _strip_inline_comment(raw).strip()
 
         if not text or text.startswith('#'):
             i += 1; continue
